@@ -75,7 +75,7 @@ def rand_call(h, orc, level):
     extra = {}
     if orc.get('mutate'):
         args = [h.below(2), [1, [2, 3]], {'a': [1], 'b': {'c': [2]}}]
-        extra = {'kw': {'k': [1, {'z': [2]}]}, 'mut': h.chance(60), 'mut_args': h.chance(60)}
+        extra = {'kw': {'k': [1, {'z': [2]}]}, 'mut': h.chance(60), 'mut_args': h.chance(60), 'alias': h.chance(30)}
     if h.chance(orc.get('w_bf', 60)):
         st = {'s': 'bf', 'p': h.pick(orc['targets']), 'f': f, 'args': args,
               'cmp': h.pick(orc.get('cmps', ['METADATA', 'HASH'])),
@@ -248,6 +248,8 @@ PROFILES = {
     'faultretry': {'faultretry': True},
     # more than 128 outputs rebuilt by a failing build (backup store beyond one directory)
     'bulk': {'bulk': True},
+    # inputs / outputs of 33-65 MiB compared by HASH
+    'bigfile': {'bigfile': True},
     # base history for a fault at the creation of a directory of the backup store (slots 128-171 share one with a later slot)
     'bulkfault': {'bulk': True, 'bulk_n': [300]},
     'swap': {'swap': True},
@@ -602,6 +604,7 @@ def make_threads(seed, profile):
             branches.append({'s': 'sb', 'f': f, 'args': a})
     combo = False
     kf_family = None
+    oldfile = None
     if rnd.random() < 0.3:
         # canonical race shape: a failing and a succeeding output that share a new (or stale) directory chain
         combo = True
@@ -609,6 +612,11 @@ def make_threads(seed, profile):
         fa, fb = rnd.choice([('fR', 'fW'), ('fW', 'fR'), ('fR', 'fR'), ('fN2', 'fW')])
         branches = [{'s': 'bf', 'p': d + ['a1'], 'f': fa, 'args': [0], 'cmp': 'METADATA'},
                     {'s': 'bf', 'p': (d if rnd.random() < 0.6 else d + ['s']) + ['b1'], 'f': fb, 'args': [1], 'cmp': 'HASH'}]
+        oldfile = None
+        if rnd.random() < 0.25:
+            # the shared directory's path held an *output file* of the previous build: whoever comes first moves
+            # it aside and makes the directory
+            oldfile = list(d)
         if rnd.random() < 0.3:
             # one call fails while it creates its directories (an over-long component below the shared new
             # directory: the directories it did create are taken back), the sibling needs the shared directory
@@ -622,6 +630,10 @@ def make_threads(seed, profile):
             {'op': 'ext', 'do': 'write', 'p': ['n', 'f1'], 'c': 'c8', 'sz': 4}, {'op': 'ext', 'do': 'mkdir', 'p': ['q']},
             {'op': 'ext', 'do': 'mkdir', 'p': ['n', 'm', 'f3']}]))
     pre_seq = rnd.random() < 0.4
+    if combo and oldfile:
+        pre_seq = False
+        steps.append({'op': 'build', 'name': 'B', 'vers': {}, 'root': [
+            {'s': 'bf', 'p': oldfile, 'f': 'fW', 'args': [7], 'cmp': 'HASH'}, {'s': 'return'}]})
     if pre_seq:      # a sequential first build of the same calls: the threads then meet stale outputs / dirs
         steps.append({'op': 'build', 'name': 'B', 'vers': {}, 'root': [dict(b, catch=True) for b in branches] + [{'s': 'return'}]})
         for _ in range(rnd.choice([0, 1, 1, 2])):
@@ -1095,6 +1107,28 @@ def make_bulk(seed, profile):
     return {'id': '%s-%d' % (profile, seed), 'cache': ['k'], 'universe': [], 'prog': prog, 'steps': steps}
 
 
+def make_bigfile(seed, profile):
+    """Files beyond any plausible "too big to hash" threshold (C13): a 33 MiB and a 65 MiB input are read with HASH
+    and METADATA, an output of that size is compared by HASH; between builds the bytes change under the old size
+    and mtime, or only the mtime changes."""
+    rnd = random.Random('bigfile:%s' % seed)
+    big = rnd.choice([33 * 2 ** 20 + 4096, 65 * 2 ** 20 + 1])
+    prog = {'fRd': [{'s': 'q', 'kind': 'read', 'p': ['big'], 'cmp': 'HASH', 'td': False, 'how': 'declare'}, {'s': 'return'}],
+            'fRm': [{'s': 'q', 'kind': 'read', 'p': ['big'], 'cmp': 'METADATA', 'td': False, 'how': 'declare'}, {'s': 'return'}],
+            'fBig': [{'s': 'write', 'c': 'c1', 'sz': big}, {'s': 'return'}]}
+    root = [{'s': 'sb', 'f': 'fRd', 'args': [0], 'catch': True}, {'s': 'sb', 'f': 'fRm', 'args': [1], 'catch': True},
+            {'s': 'bf', 'p': ['o', 'bigout'], 'f': 'fBig', 'args': [2], 'cmp': 'HASH', 'catch': True}, {'s': 'return'}]
+    steps = [{'op': 'ext', 'do': 'write', 'p': ['big'], 'c': 'c9', 'sz': big},
+             {'op': 'build', 'name': 'B', 'vers': {}, 'root': root},
+             rnd.choice([{'op': 'ext', 'do': 'rewrite_keep_meta', 'p': ['big'], 'c': 'c8'},
+                         {'op': 'ext', 'do': 'touch', 'p': ['big']}]),
+             {'op': 'build', 'name': 'B', 'vers': {}, 'root': [dict(x) for x in root]},
+             rnd.choice([{'op': 'ext', 'do': 'rewrite_keep_meta', 'p': ['o', 'bigout'], 'c': 'c7'},
+                         {'op': 'ext', 'do': 'touch', 'p': ['o', 'bigout']}]),
+             {'op': 'build', 'name': 'B', 'vers': {}, 'root': [dict(x) for x in root]}]
+    return {'id': '%s-%d' % (profile, seed), 'cache': ['k'], 'universe': [], 'prog': prog, 'steps': steps}
+
+
 def make_scenario(seed, profile='general'):
     P = PROFILES[profile]
     if P.get('swap'):
@@ -1107,6 +1141,8 @@ def make_scenario(seed, profile='general'):
         return make_faultretry(seed, profile)
     if P.get('bulk'):
         return make_bulk(seed, profile)
+    if P.get('bigfile'):
+        return make_bigfile(seed, profile)
     if P.get('straggler'):
         return make_straggler(seed, profile)
     if P.get('threads_rb'):
